@@ -56,7 +56,7 @@ inductive Cls
 inductive Args
   | selfOther          -- (self, other)
   | otherSelf          -- (other, self)
-  | selfOtherCopy      -- (self, other.copy())
+  | selfOtherCopy      -- (self, other.copy()): every overload that stores a user VECTOR copies it
   | selfOtherTimesOne  -- constant_vector = other * self.range.one(); (self, constant_vector)
   | opScalTimesOther   -- (self.operator, self.scalar * other, self.__tmp)
   | domainSelfAtZero   -- (self.domain, self(self.domain.zero()))
@@ -190,7 +190,7 @@ def construct (mL mR : Merge) (env : Nat → Vec K → Vec K) (c : Cls) (args : 
   match c, args, other with
   | .OperatorSum, .selfOther, .op b => ctorSum false self b
   | .FunctionalSum, .selfOther, .op b => if self.isFn ∧ b.isFn then ctorSum true self b else none
-  | .OperatorVectorSum, .selfOther, .vec v =>
+  | .OperatorVectorSum, .selfOtherCopy, .vec v =>
       if self.ran = .vec v.n then some (.vecSum self v.val) else none
   | .OperatorVectorSum, .selfOtherTimesOne, .scal s _ =>
       match self.ran with
@@ -213,7 +213,7 @@ def construct (mL mR : Merge) (env : Nat → Vec K → Vec K) (c : Cls) (args : 
       if self.isFn then some (ctorRScal mR true self s) else none
   | .OperatorRightVectorMult, .selfOtherCopy, .vec v =>
       if self.dom = .vec v.n then some (.rvec false self v.val) else none
-  | .FunctionalRightVectorMult, .selfOther, .vec v =>
+  | .FunctionalRightVectorMult, .selfOtherCopy, .vec v =>
       if self.isFn ∧ self.dom = .vec v.n then some (.rvec true self v.val) else none
   | .OperatorLeftVectorMult, .selfOtherCopy, .vec v =>
       if self.ran = .vec v.n then some (.lvec self v.val) else none
